@@ -33,7 +33,8 @@ partial def decV (j : Json) : Except String MJson :=
         pure (ofString (← (p.getD 0 .null).getStr?), ← decV (p.getD 1 .null)))
       pure (.obj kvs)
     | _, _, _, .ok r, _ => do pure (wrapN (← getStr r "open") (← getNat r "n") (← decV (r.getObjValD "leaf")))
-    | _, _, _, _, .ok b => do pure (.str (List.replicate (← getNat b "n") (← getNat b "c")))
+    -- (a long one-letter string; the model never looks inside it, lengths above 1 MiB are shortened to 1 MiB)
+    | _, _, _, _, .ok b => do pure (.str (List.replicate (min (← getNat b "n") 1048576) (← getNat b "c")))
     | _, _, _, _, _ => throw "value encoding"
   | _ => throw "value encoding"
 
